@@ -282,7 +282,9 @@ ssize_t _whawty_write_data(int sock, const void* data, size_t len, int timeout)
     }
 
     ssize_t nwritten = write(sock, (void*)(data + offset), len - offset);
-    if(nwritten < 0 || (nwritten == 0 && errno != EINTR)) {
+    if(nwritten <= 0) {
+      // errno is only meaningful if write() failed: a stale EINTR left behind by the
+      // calling application must not turn a zero-byte write into an endless retry
       return offset;
     }
     offset += nwritten;
@@ -368,7 +370,9 @@ ssize_t _whawty_read_data(int sock, const void* data, size_t len, int timeout)
     }
 
     ssize_t nread = read(sock, (void*)(data + offset), len - offset);
-    if(nread < 0 || (nread == 0 && errno != EINTR)) {
+    if(nread <= 0) {
+      // read() == 0 is the end of the stream whatever errno happens to be: with a stale
+      // EINTR from the calling application the old test spun forever on a closed socket
       return offset;
     }
     offset += nread;
